@@ -112,6 +112,22 @@ def run(chk):
         ref = [gen.mutate(rng, base, "ABX*_qC", rng.randint(0, 2)) for _ in range(rng.randint(16, 40))]
         qs = [rng.choice(ref), gen.mutate(rng, base, "ABX*_qC", 1)][: rng.randint(1, 2)]
         add_symdel("many-refs-any-alphabet", ref, qs, 1, model=False)
+    # the SAME object passed as query and reference (list, ndarray, Series): still a two-collection search - every
+    # position is reported against itself at distance 0
+    import numpy as _np
+    import pandas as _pd
+    for _ in range(12 if not thorough else 100):
+        alpha, pool = rng.choice(aapools)
+        xs = gen.sub_collection(rng, pool, rng.randint(1, 7))
+        k = rng.randint(1, 2)
+        sop = {"op": "brute_cross", "ref": xs, "qs": xs, "k": k, "mode": "lev"}
+        meta = {"ref": xs, "qs": xs, "k": k, "same_object": True}
+        for cname, cont in (("list", list(xs)), ("ndarray", _np.array(xs)), ("object-ndarray", _np.array(xs, dtype=object)),
+                            ("series", _pd.Series(xs, index=range(3, 3 + len(xs))))):
+            b.add(f"symdel2|same-object-{cname}", lambda c=cont, k=k: nn.symdel(c, max_edits=k, seqs2=c), None, sop, meta)
+            b.add(f"nearest_neighbor2|same-object-{cname}", lambda c=cont, k=k: nn.nearest_neighbor(c, max_edits=k, seqs2=c), None, sop, meta)
+            b.add(f"SymdelDB.lookup|same-object-{cname}", lambda c=cont, k=k: nn.SymdelDB(c, k).lookup(c), None, sop, meta)
+            b.add(f"LookupDB.lookup|same-object-{cname}", lambda c=cont, k=k: nn.LookupDB(c).lookup(c, max_edits=k), None, sop, meta)
     # all strings of a pool against themselves
     for alpha, pool in pools:
         add_symdel(f"E({alpha})-all", list(pool), list(pool), 2, model=len(pool) <= 45)
